@@ -516,6 +516,12 @@ func (h *hist) invoke1(cr *callRec, ph *phaseRt) {
 	}
 }
 
+// waitGoexitChild is a function of its own so that the waiting parent is recognisable in a
+// goroutine dump (runtime frames are not shown there).
+//
+//go:noinline
+func waitGoexitChild(fin chan struct{}) { <-fin }
+
 func (h *hist) runGor(ph *phaseRt, gs *gorSpec, recs []*callRec) {
 	var seen [maxKeys]int64
 	for k := range seen {
@@ -549,7 +555,7 @@ func (h *hist) runGor(ph *phaseRt, gs *gorSpec, recs []*callRec) {
 				defer close(fin)
 				h.invoke(cr, ph)
 			}()
-			<-fin
+			waitGoexitChild(fin)
 		} else {
 			h.invoke(cr, ph)
 		}
@@ -664,7 +670,7 @@ func parkedInSyncx(gs []kit.Goroutine) (fingerprint string, parked bool) {
 		inSyncx := strings.Contains(st, "go-zero/core/syncx.")
 		switch {
 		case inSyncx && strings.Contains(st, "sync.runtime_Semacquire"):
-		case !inSyncx && strings.Contains(st, "c07.(*hist).runGor") && strings.Contains(st, "runtime.chanrecv"):
+		case !inSyncx && strings.Contains(st, "c07.waitGoexitChild"):
 		default:
 			parked = false
 		}
